@@ -98,6 +98,8 @@ type World struct {
 	stateSet map[string]bool
 	maxViol  int
 	violCount map[string]int
+	tainted  map[string]bool
+	blockPreAnteFail bool
 	nBlocks  int
 	// scratch for oracles/generators
 	X map[string]interface{}
@@ -264,6 +266,22 @@ func (w *World) diverge(what string, n *Node, a, b string) {
 	if strings.HasPrefix(n.name, "R") || strings.HasPrefix(w.node().name, "R") {
 		kind = "restarted" // one of the two nodes compared went through a crash/restart
 	}
+	// Root cause bookkeeping for the known finding (DESIGN §5, C06): once a node reported a different
+	// GasUsed for a transaction rejected before the ante handler, its block gas meter — which this
+	// chain uses to seed proof challenges — differs too, and everything that node computes afterwards
+	// may differ. Such follow-up divergences of that node get their own class.
+	if w.tainted == nil {
+		w.tainted = map[string]bool{}
+	}
+	if what == "gas-used-of-tx-rejected-before-ante" {
+		if strings.HasPrefix(w.node().name, "R") && !strings.HasPrefix(n.name, "R") {
+			w.tainted["*primary"] = true
+		} else {
+			w.tainted[n.name] = true
+		}
+	} else if w.tainted[n.name] || w.tainted["*primary"] {
+		what = what + "-after-pre-ante-gas-divergence"
+	}
 	w.Violate("C06:diverge:"+what+":"+kind, "node %s differs from primary at height %d: %s vs %s", n.name, w.height, b, a)
 }
 
@@ -275,6 +293,7 @@ func (w *World) BeginBlock(dt time.Duration) bool {
 		ProposerAddress: valKey().PubKey().Address()}
 	w.beginReq = abci.RequestBeginBlock{Header: w.hdr, LastCommitInfo: valCommitInfo(w.cfg)}
 	w.blockTxs = nil
+	w.blockPreAnteFail = false
 	w.journal = nil
 	w.blkHash = nil
 	w.oracle.BeforeBegin(w)
@@ -329,6 +348,9 @@ func (w *World) Deliver(bz []byte) *abci.ResponseDeliverTx {
 		}
 	}
 	w.blockTxs = append(w.blockTxs, bz)
+	if res0.GasWanted == 0 && res0.Code != 0 {
+		w.blockPreAnteFail = true // rejected before the ante handler (see diverge)
+	}
 	w.journal = append(w.journal, func(n *Node) { n.app.DeliverTx(abci.RequestDeliverTx{Tx: bz}) })
 	w.blkHash = append(w.blkHash, "T:"+digestTx(&res0))
 	w.res.Txs++
@@ -425,6 +447,11 @@ func (w *World) crashRestart(i int) {
 			if !w.safely("DeliverTx", func() { act(n) }) {
 				return
 			}
+		}
+		if w.blockPreAnteFail && len(w.nodes) > 1 {
+			// the replayed block contains a transaction rejected before the ante handler: in the fresh
+			// process its GasUsed, and with it the block gas meter, differ from the first execution
+			w.diverge("gas-used-of-tx-rejected-before-ante", n, "first execution", "replay after restart")
 		}
 	}
 	w.Fault("crash_restart")
